@@ -150,7 +150,9 @@ def run(ck: Check):
     ck.run_fixed({"inject_across_short_lived_contexts": "C19:differs-from-explicit-lookup",
                   "overlapping_injected_calls": "C19:overlapping-calls-mixed-up",
                   "caller_names_injected_parameter": "C19:arguments-changed",
-                  "optional_injection_is_the_optional_lookup": "C19:differs-from-explicit-lookup"})
+                  "optional_injection_is_the_optional_lookup": "C19:differs-from-explicit-lookup",
+                  "wrapper_kind_decides_the_lookup": "C19:differs-from-explicit-lookup",
+                  "injected_call_in_a_closed_context_is_the_explicit_call": "C19:differs-from-explicit-lookup"})
     sigs, n_fail = {}, 0
     for r in results:
         for sig, what in oracle(r):
